@@ -340,10 +340,11 @@ impl<D: Device, P: Protocol, S: Socket, TS: TimeSource> GenericCloud<D, P, S, TS
     fn crypto_housekeep(&mut self) -> Result<(), Error> {
         let mut msg = MsgBuffer::new(SPACE_BEFORE);
         let mut del: SmallVec<[SocketAddr; 4]> = smallvec![];
+        let mut del_pending: SmallVec<[SocketAddr; 4]> = smallvec![];
         for addr in self.pending_inits.keys().copied().collect::<SmallVec<[SocketAddr; 4]>>() {
             msg.clear();
             match self.pending_inits.get_mut(&addr).unwrap().every_second(&mut msg) {
-                Err(_) => del.push(addr),
+                Err(_) => del_pending.push(addr),
                 Ok(MessageResult::None) => (),
                 Ok(MessageResult::Reply) => self.send_to(addr, &mut msg)?,
                 Ok(_) => unreachable!(),
@@ -358,8 +359,11 @@ impl<D: Device, P: Protocol, S: Socket, TS: TimeSource> GenericCloud<D, P, S, TS
                 Ok(_) => unreachable!(),
             }
         }
-        for addr in del {
+        // A handshake that times out only removes itself, an established peer on that address stays
+        for addr in del_pending {
             self.pending_inits.remove(&addr);
+        }
+        for addr in del {
             if self.peers.remove(&addr).is_some() {
                 self.table.remove_claims(addr);
                 self.connect_sock(addr)?;
@@ -824,9 +828,13 @@ impl<D: Device, P: Protocol, S: Socket, TS: TimeSource> GenericCloud<D, P, S, TS
         // HOT PATH
         let src = mapped_addr(src);
         debug!("Received {} bytes from {}", data.len(), src);
-        let msg_result = if let Some(init) = self.pending_inits.get_mut(&src) {
+        // A pending handshake only takes over the traffic of an address that has no established peer. Otherwise
+        // anybody could cut off a healthy peer by replaying one of its old handshake messages from its address.
+        let to_pending = self.pending_inits.contains_key(&src)
+            && (is_init_message(data.message()) || !self.peers.contains_key(&src));
+        let msg_result = if to_pending {
             // COLD PATH
-            init.handle_message(data)
+            self.pending_inits.get_mut(&src).unwrap().handle_message(data)
         } else if is_init_message(data.message()) {
             // COLD PATH
             let mut result = None;
